@@ -11,6 +11,7 @@ import (
 	"flag"
 	"fmt"
 	"os"
+	"os/exec"
 	"path/filepath"
 	"runtime/debug"
 	"sort"
@@ -243,6 +244,14 @@ func cmdCheck(args []string) int {
 		fmt.Printf("UNRESOLVED property=%s %s\n", ps.ID, u)
 	}
 
+	// armed-ness evidence (thorough tier, clean base check only): the seeded changes kept under
+	// /verif/seeded/<id>-*/patch.diff are applied one at a time to a scratch copy of the analysed tree and the
+	// property's rules must report a violation there. Informational: never changes the exit code.
+	var seeded map[string]interface{}
+	if deep && !*noEvidence && nViol == 0 && len(unres) == 0 {
+		seeded = runSeeded(ps.ID, *repo, vdir)
+	}
+
 	wall := time.Since(start).Seconds()
 	if !*noEvidence {
 		censusOut := map[string]interface{}{}
@@ -279,6 +288,9 @@ func cmdCheck(args []string) int {
 				"decides structural necessary conditions only; see coverage.explanation for the clauses not decided",
 			},
 			WallS: wall, Violations: nViol,
+		}
+		if seeded != nil {
+			ev.Coverage["seeded_changes"] = seeded
 		}
 		if err := writeJSON(filepath.Join(vdir, "evidence", ps.ID+".json"), ev); err != nil {
 			fmt.Fprintln(os.Stderr, "evidence:", err)
@@ -380,4 +392,90 @@ func cmdExplain(args []string) int {
 		fmt.Printf("obligation %s | %s no longer exists in %s\n", v.Rule, v.Construct, repo)
 	}
 	return 0
+}
+
+// runSeeded applies each seeded change of the property to a scratch copy of repo and runs the property's
+// quick check on it in a child process.
+func runSeeded(id, repo, vdir string) map[string]interface{} {
+	patches, _ := filepath.Glob(filepath.Join(vdir, "seeded", id+"-*", "patch.diff"))
+	sort.Strings(patches)
+	self, err := os.Executable()
+	if err != nil || len(patches) == 0 {
+		return nil
+	}
+	killed, skipped := 0, 0
+	var details []map[string]interface{}
+	for _, pf := range patches {
+		name := filepath.Base(filepath.Dir(pf))
+		d := map[string]interface{}{"seed": name}
+		tmp, err := os.MkdirTemp("", "gocqlverif-seed-")
+		if err != nil {
+			continue
+		}
+		func() {
+			defer os.RemoveAll(tmp)
+			dst := filepath.Join(tmp, "repo")
+			if err := copyTree(repo, dst); err != nil {
+				d["status"] = "skipped: copy failed: " + err.Error()
+				skipped++
+				return
+			}
+			if out, err := exec.Command("patch", "-p1", "-s", "-d", dst, "-i", pf).CombinedOutput(); err != nil {
+				d["status"] = "skipped: patch does not apply to this tree: " + firstLines(string(out), 2)
+				skipped++
+				return
+			}
+			cmd := exec.Command(self, "check", "-property", id, "-repo", dst, "-no-evidence")
+			out, _ := cmd.CombinedOutput()
+			var rules []string
+			seen := map[string]bool{}
+			for _, line := range strings.Split(string(out), "\n") {
+				if !strings.HasPrefix(line, "  ") {
+					continue
+				}
+				f := strings.Fields(line)
+				if len(f) >= 2 && strings.HasPrefix(f[1], id+".R") {
+					r := strings.TrimSuffix(f[1], ":")
+					if !seen[r] {
+						seen[r] = true
+						rules = append(rules, r)
+					}
+				}
+			}
+			if cmd.ProcessState != nil && cmd.ProcessState.ExitCode() == 1 && len(rules) > 0 {
+				killed++
+				d["status"] = "reported"
+				d["rules"] = rules
+			} else {
+				d["status"] = fmt.Sprintf("NOT reported (exit %d)", cmd.ProcessState.ExitCode())
+			}
+		}()
+		details = append(details, d)
+	}
+	fmt.Printf("seeded changes of %s: %d of %d reported, %d skipped\n", id, killed, len(patches)-skipped, skipped)
+	return map[string]interface{}{"reported": killed, "of": len(patches) - skipped, "skipped": skipped, "details": details,
+		"note": "each /verif/seeded/<id>-*/patch.diff (a change that breaks the property, compiles and keeps the test suite green) applied to a scratch copy of the analysed tree; the property's rules must report it"}
+}
+
+func copyTree(src, dst string) error {
+	return filepath.Walk(src, func(path string, info os.FileInfo, err error) error {
+		if err != nil {
+			return err
+		}
+		rel, _ := filepath.Rel(src, path)
+		if info.IsDir() {
+			if info.Name() == ".git" {
+				return filepath.SkipDir
+			}
+			return os.MkdirAll(filepath.Join(dst, rel), 0o755)
+		}
+		if !info.Mode().IsRegular() {
+			return nil
+		}
+		b, err := os.ReadFile(path)
+		if err != nil {
+			return err
+		}
+		return os.WriteFile(filepath.Join(dst, rel), b, 0o644)
+	})
 }
